@@ -61,7 +61,8 @@ type hroot struct {
 
 type history struct {
 	pool  [][2]string
-	uses  []int // roots per pool object
+	popts []bool // pool object i is created with jschema.KeysAreOptionalByDefault()
+	uses  []int  // roots per pool object
 	roots []*hroot
 	ops   []hOp
 	stats []string
@@ -182,6 +183,7 @@ func (g *hgen) object(level, depth int) *tg.Node {
 	for i := 1 + g.r.Intn(3); i > 0; i-- {
 		p := tg.Prop{Key: g.key(), Val: g.value(level, depth)}
 		p.Val.Optional = g.r.Intn(4) == 0
+		p.Val.Required = !p.Val.Optional && g.r.Intn(6) == 0 // `optional: false` written out: required whatever the object's option
 		n.Props = append(n.Props, p)
 	}
 	if len(g.strNames) > 0 && g.r.Intn(4) == 0 { // at most one key shortcut per object (one-slot semantics)
@@ -296,10 +298,16 @@ func genHistory(r *rand.Rand) *history {
 	}
 	h := &history{}
 	stat := func(s string) { h.stats = append(h.stats, s) }
+	// The option KeysAreOptionalByDefault belongs to ONE schema object: every root and every type definition draws its
+	// own setting (one history in three keeps all objects plain); a shared definition keeps its setting under every root.
+	plainHistory := r.Intn(3) == 0
+	drawOpt := func() bool { return !plainHistory && r.Intn(2) == 0 }
 	shared := make([]*tg.Node, g.nS)
+	sharedOpt := make([]bool, g.nS)
 	for i := range shared {
 		var sort string
 		shared[i], sort = g.sharedBody(i)
+		sharedOpt[i] = drawOpt()
 		stat("h_shared_type_is_" + sort)
 	}
 	stat(fmt.Sprintf("h_shared_chain_%d", g.nS))
@@ -310,17 +318,20 @@ func genHistory(r *rand.Rand) *history {
 		ro := &hroot{g: &tg.Graph{}}
 		for i, name := range g.order {
 			var body *tg.Node
+			var opt bool
 			switch {
 			case i < g.nS && r.Intn(10) > 0:
-				body = shared[i]
+				body, opt = shared[i], sharedOpt[i]
 			case i < g.nS:
 				body, _ = g.sharedBody(i) // this root defines the name on its own
+				opt = drawOpt()
 			case j > 0 && r.Intn(3) == 0:
-				body = h.roots[r.Intn(j)].g.Type(name) // the binding of another root
+				other := h.roots[r.Intn(j)].g
+				body, opt = other.Type(name), other.Opt(name) // the binding of another root
 			default:
-				body = g.boundBody(i)
+				body, opt = g.boundBody(i), drawOpt()
 			}
-			ro.g.Types = append(ro.g.Types, tg.TypeDef{Name: name, Body: body})
+			ro.g.Types = append(ro.g.Types, tg.TypeDef{Name: name, Body: body, Opt: opt})
 			private[j] = append(private[j], r.Intn(map[bool]int{true: 14, false: 6}[i < g.nS]) == 0)
 		}
 		for _, name := range g.intNames {
@@ -332,6 +343,7 @@ func genHistory(r *rand.Rand) *history {
 			private[j] = append(private[j], r.Intn(6) == 0)
 		}
 		ro.g.Root = g.rootBody()
+		ro.g.RootOpt = drawOpt()
 		ro.order = r.Perm(len(ro.g.Types))
 		if sm := simulate(ro.g, ro.g.Root, "root", false); sm.err == "" && sm.out != nil {
 			ro.doc = string(sm.out)
@@ -346,6 +358,9 @@ func genHistory(r *rand.Rand) *history {
 		for ti, t := range ro.g.Types {
 			text := t.Body.Text()
 			key := t.Name + "\x00" + text
+			if t.Opt {
+				key += "\x00KeysAreOptionalByDefault"
+			}
 			if private[j][ti] {
 				key += fmt.Sprintf("\x00private to root %d", j)
 			}
@@ -354,6 +369,7 @@ func genHistory(r *rand.Rand) *history {
 				pi = len(h.pool)
 				index[key] = pi
 				h.pool = append(h.pool, [2]string{t.Name, text})
+				h.popts = append(h.popts, t.Opt)
 				h.uses = append(h.uses, 0)
 			}
 			h.uses[pi]++
@@ -392,12 +408,12 @@ func genHistory(r *rand.Rand) *history {
 
 func (h *history) base() string {
 	var sb strings.Builder
-	sb.WriteString("TYPE OBJECTS (each created ONCE: jschema.New(name, text), AddRule @e0 = [\"ab\", \"cd\"], @e1 = [1, 2, 3] (enum.New); the same object is passed to AddType of every root that lists it):")
+	sb.WriteString("TYPE OBJECTS (each created ONCE: jschema.New(name, text), with jschema.KeysAreOptionalByDefault() where marked [opt], AddRule @e0 = [\"ab\", \"cd\"], @e1 = [1, 2, 3] (enum.New); the same object is passed to AddType of every root that lists it):")
 	for pi, o := range h.pool {
-		fmt.Fprintf(&sb, "\n#%d %s =\n%s", pi+1, o[0], o[1])
+		fmt.Fprintf(&sb, "\n#%d %s%s =\n%s", pi+1, o[0], optMark(h.popts[pi]), o[1])
 	}
 	for j, ro := range h.roots {
-		fmt.Fprintf(&sb, "\nROOT %d = jschema.New(\"root%d\", text) + the two AddRule, text =\n%s\n  AddType in this order:", j, j, ro.g.Root.Text())
+		fmt.Fprintf(&sb, "\nROOT %d = jschema.New(\"root%d\", text%s) + the two AddRule, text =\n%s\n  AddType in this order:", j, j, optArg(ro.g.RootOpt), ro.g.Root.Text())
 		for _, ti := range ro.order {
 			fmt.Fprintf(&sb, " %s=#%d", ro.g.Types[ti].Name, ro.objs[ti]+1)
 		}
@@ -428,18 +444,18 @@ func (h *history) calls(upto int) string {
 func (h *history) fresh(j int) string {
 	ro := h.roots[j]
 	var sb strings.Builder
-	fmt.Fprintf(&sb, "s := jschema.New(\"root%d\", text) with text =\n%s\nAddRule: @e0 = [\"ab\", \"cd\"], @e1 = [1, 2, 3] (enum.New) on s and on every type; AddType (fresh jschema.New(name, text) each) in this order:", j, ro.g.Root.Text())
+	fmt.Fprintf(&sb, "s := jschema.New(\"root%d\", text%s) with text =\n%s\nAddRule: @e0 = [\"ab\", \"cd\"], @e1 = [1, 2, 3] (enum.New) on s and on every type; AddType (fresh jschema.New(name, text) each; [opt] = with jschema.KeysAreOptionalByDefault(), the others without) in this order:", j, optArg(ro.g.RootOpt), ro.g.Root.Text())
 	for _, ti := range ro.order {
-		sb.WriteString("\n" + ro.g.Types[ti].Name + " = " + ro.g.Types[ti].Body.Text())
+		sb.WriteString("\n" + ro.g.Types[ti].Name + optMark(ro.g.Types[ti].Opt) + " = " + ro.g.Types[ti].Body.Text())
 	}
 	sb.WriteString("\nthen s.Check(), ex := s.Example(), s.Validate(json.New(\"example\", ex))")
 	return sb.String()
 }
 
 func (h *history) request(id int) *hReq {
-	req := &hReq{ID: id, Pool: h.pool, Rules: c09.EnumRules, Ops: h.ops}
+	req := &hReq{ID: id, Pool: h.pool, PoolOpts: h.popts, Rules: c09.EnumRules, Ops: h.ops}
 	for j, ro := range h.roots {
-		rr := hRootReq{Name: fmt.Sprintf("root%d", j), Text: ro.g.Root.Text(), Doc: ro.doc}
+		rr := hRootReq{Name: fmt.Sprintf("root%d", j), Text: ro.g.Root.Text(), Doc: ro.doc, Opt: ro.g.RootOpt}
 		for _, ti := range ro.order {
 			rr.Adds = append(rr.Adds, ro.objs[ti])
 		}
